@@ -193,21 +193,58 @@ def objectLibsKey : String := "public.objectLibs"
 def defaultCreator : String := "org.linebender.norad"
 def glyphsDir : String := "glyphs"
 
+/-- The parts of a font this model does not look into, as PARAMETERS: their in-memory type, their
+    file type and the codec between the two.  The driver instantiates them with opaque tokens
+    (`tokenParts`); `Props/C01Bridge.lean` instantiates the glyph codec with the glif writer / parser
+    of `Model/GlifWrite.lean` / `Model/Glif.lean`. -/
+structure Parts where
+  /-- a glyph in memory -/
+  Glyph : Type
+  /-- a glif file -/
+  GlifFile : Type
+  /-- `Glyph::encode_xml_with_options` -/
+  encGlyph : Glyph → GlifFile
+  /-- `Glyph::load` / `GlifParser` (`none` = the file is rejected) -/
+  decGlyph : GlifFile → Option Glyph
+  /-- the font-info fields other than the int-or-float numbers, unitsPerEm and the guidelines -/
+  Rest : Type
+  /-- their part of fontinfo.plist -/
+  RestFile : Type
+  encRest : Rest → RestFile
+  /-- serde deserialisation of those keys (`none` = fontinfo.plist is rejected) -/
+  decRest : RestFile → Option Rest
+  /-- `FontInfo::validate` on those fields -/
+  restValid : Rest → Bool
+
+/-- opaque tokens carried unchanged: the instance the correspondence driver runs -/
+abbrev tokenParts : Parts where
+  Glyph := String
+  GlifFile := String
+  encGlyph := id
+  decGlyph := some
+  Rest := String
+  RestFile := String
+  encRest := id
+  decRest := some
+  restValid := fun _ => true
+
+variable {P : Parts}
+
 structure Guide where
   id : Option String
   lib : Option Dict
   /-- line, name, colour: not modelled (token) -/
   rest : String
 
-structure Info where
+structure Info (P : Parts) where
   /-- the int-or-float fields in struct order; list elements `key.i`, list lengths `key.n` -/
   nums : List (String × NumV) := []
   upm : Option NumV := none
   guides : Option (List Guide) := none
-  /-- all other fields (token); `none` = all default -/
-  rest : Option String := none
+  /-- all other fields; `none` = all default -/
+  rest : Option P.Rest := none
 
-def Info.isEmpty (i : Info) : Bool := i.nums.isEmpty && i.upm.isNone && i.guides.isNone && i.rest.isNone
+def Info.isEmpty {P : Parts} (i : (Info P)) : Bool := i.nums.isEmpty && i.upm.isNone && i.guides.isNone && i.rest.isNone
 
 /-- a colour in memory: four doubles, or (after loading) the doubles nearest to k/1000 -/
 inductive ColV where
@@ -215,28 +252,29 @@ inductive ColV where
   | milli (r g b a : Nat)
 deriving DecidableEq
 
-structure GlyphE where
+structure GlyphE (P : Parts) where
   name : String
   file : String
-  tok : String
+  /-- the glyph itself -/
+  tok : P.Glyph
 
-structure Layer where
+structure Layer (P : Parts) where
   name : String
   dir : String
   color : Option ColV := none
   lib : Dict := []
-  glyphs : List GlyphE := []
+  glyphs : List (GlyphE P) := []
 
-structure Font where
+structure Font (P : Parts) where
   creator : Option String
   fv : Nat
   minor : Nat
-  info : Info
+  info : (Info P)
   lib : Dict
   groups : List (String × List String)
   kerning : List (String × List (String × NumV))
   features : List Char
-  layers : List Layer
+  layers : List (Layer P)
   data : List (String × String)
   images : List (String × String)
 
@@ -244,33 +282,33 @@ structure GuideF where
   id : Option String
   rest : String
 
-structure InfoF where
+structure InfoF (P : Parts) where
   nums : List (String × NumW)
   upm : Option NumW
   guides : Option (List GuideF)
-  rest : Option String
+  rest : Option P.RestFile
 
 structure LayerInfoF where
   /-- the four channels in thousandths (the string `r,g,b,a` with at most three decimals) -/
   color : Option (Nat × Nat × Nat × Nat)
   lib : Option Dict
 
-structure LayerDirF where
+structure LayerDirF (P : Parts) where
   contents : List (String × String)
   info : Option LayerInfoF
-  glifs : List (String × String)
+  glifs : List (String × P.GlifFile)
 
-structure Tree where
+structure Tree (P : Parts) where
   creator : Option String
   fv : Nat
   minor : Nat
-  fontinfo : Option InfoF
+  fontinfo : Option (InfoF P)
   lib : Option Dict
   groups : Option (List (String × List String))
   kerning : Option (List (String × List (String × NumW)))
   features : Option (List Char)
   layercontents : List (String × String)
-  dirs : List (String × LayerDirF)
+  dirs : List (String × (LayerDirF P))
   data : List (String × String)
   images : List (String × String)
 
@@ -346,24 +384,31 @@ def saveColor : ColV → Nat × Nat × Nat × Nat
   | .bits r g b a => (chanMilli r, chanMilli g, chanMilli b, chanMilli a)
   | .milli r g b a => (r, g, b, a)
 
-def saveLayerInfo (l : Layer) : Option LayerInfoF :=
+def saveLayerInfo (l : (Layer P)) : Option LayerInfoF :=
   if l.color.isNone && l.lib.isEmpty then none
   else some { color := l.color.map saveColor, lib := if l.lib.isEmpty then none else some (sortDict l.lib) }
 
-def saveLayerDir (l : Layer) : LayerDirF :=
+def saveLayerDir (l : (Layer P)) : (LayerDirF P) :=
   { contents := l.glyphs.map (fun g => (g.name, g.file)), info := saveLayerInfo l,
-    glifs := l.glyphs.map (fun g => (g.file, g.tok)) }
+    glifs := l.glyphs.map (fun g => (g.file, P.encGlyph g.tok)) }
 
 def nodupS : List String → Bool
   | [] => true
   | a :: r => !r.contains a && nodupS r
 
-def saveInfo (i : Info) : InfoF :=
+/-- `FontInfo::validate` on the un-modelled fields -/
+def restOK (i : (Info P)) : Bool :=
+  match i.rest with
+  | some r => P.restValid r
+  | none => true
+
+def saveInfo (i : (Info P)) : (InfoF P) :=
   { nums := saveNums i.nums, upm := i.upm.map (writeWith upmWrite),
-    guides := i.guides.map (fun gs => gs.map fun g => { id := g.id, rest := g.rest }), rest := i.rest }
+    guides := i.guides.map (fun gs => gs.map fun g => { id := g.id, rest := g.rest }),
+    rest := i.rest.map P.encRest }
 
 /-- the files written once the checks have passed; `ol` = the dumped object libs -/
-def mkTree (f : Font) (ol : Dict) : Tree :=
+def mkTree (f : (Font P)) (ol : Dict) : (Tree P) :=
   let lib1 := if ol.isEmpty then f.lib else f.lib ++ [(objectLibsKey, PV.dict ol)]
   { creator := if f.creator = some defaultCreator then f.creator else some defaultCreator
     fv := 3
@@ -379,10 +424,11 @@ def mkTree (f : Font) (ol : Dict) : Tree :=
     images := f.images }
 
 /-- `Font::save_impl` -/
-def saveFont (f : Font) : Out Tree :=
+def saveFont (f : (Font P)) : Out (Tree P) :=
   if f.fv ≠ 3 then .err .downgrade else
   if (lookupKV objectLibsKey f.lib).isSome then .err .objectLibsKey else
   if !idsNodup ((f.info.guides.getD []).map (·.id)) then .err .invalidInfo else
+  if !restOK f.info then .err .invalidInfo else
   match dumpObjectLibs (f.info.guides.getD []) with
   | .panic s => .panic s
   | .err e => .err e
@@ -419,10 +465,22 @@ def attachLibs : List GuideF → Dict → Out (List Guide)
 
 def plainGuides (gs : List GuideF) : List Guide := gs.map fun g => { id := g.id, lib := none, rest := g.rest }
 
+/-- serde deserialisation and `validate` of the un-modelled fields (`none` = fontinfo.plist is refused) -/
+def loadRest (r : Option P.RestFile) : Option (Option P.Rest) :=
+  match r with
+  | none => some none
+  | some rf =>
+    match P.decRest rf with
+    | some x => if P.restValid x then some (some x) else none
+    | none => none
+
 /-- `FontInfo::from_file` (format 3) on the modelled fields; returns the info and the remaining lib -/
-def loadInfo (i : InfoF) (lib : Dict) : Out (Info × Dict) :=
+def loadInfo (i : (InfoF P)) (lib : Dict) : Out (Info P × Dict) :=
   if !idsNodup ((i.guides.getD []).map (·.id)) then .err .invalidInfo else
-  let base : Info := { nums := loadNums i.nums, upm := i.upm.map readNum, guides := i.guides.map plainGuides, rest := i.rest }
+  match loadRest i.rest with
+  | none => .err .invalidInfo
+  | some rest =>
+  let base : (Info P) := { nums := loadNums i.nums, upm := i.upm.map readNum, guides := i.guides.map plainGuides, rest := rest }
   match lookupKV objectLibsKey lib with
   | none => .ok (base, lib)
   | some (.dict ol) =>
@@ -435,14 +493,14 @@ def loadInfo (i : InfoF) (lib : Dict) : Out (Info × Dict) :=
       | .panic s => .panic s
   | some _ => .err .objectLibsNotDict
 
-def loadGlyphs (d : LayerDirF) : List (String × String) → Option (List GlyphE)
+def loadGlyphs (d : (LayerDirF P)) : List (String × String) → Option (List (GlyphE P))
   | [] => some []
   | (n, file) :: r =>
-    match lookupS file d.glifs, loadGlyphs d r with
+    match (lookupS file d.glifs).bind P.decGlyph, loadGlyphs d r with
     | some tok, some gs => some ({ name := n, file := file, tok := tok } :: gs)
     | _, _ => none
 
-def loadLayer (name dir : String) (d : LayerDirF) : Option Layer :=
+def loadLayer (name dir : String) (d : (LayerDirF P)) : Option (Layer P) :=
   match loadGlyphs d d.contents with
   | none => none
   | some gs =>
@@ -450,7 +508,7 @@ def loadLayer (name dir : String) (d : LayerDirF) : Option Layer :=
            color := (d.info.bind (·.color)).map (fun c => ColV.milli c.1 c.2.1 c.2.2.1 c.2.2.2),
            lib := (d.info.bind (·.lib)).getD [], glyphs := gs }
 
-def loadLayers (t : Tree) : List (String × String) → Out (List Layer)
+def loadLayers (t : (Tree P)) : List (String × String) → Out (List (Layer P))
   | [] => .ok []
   | (n, dir) :: r =>
     match lookupS dir t.dirs with
@@ -461,12 +519,12 @@ def loadLayers (t : Tree) : List (String × String) → Out (List Layer)
       | none, _ => .err .missingGlif
       | _, o => o
 
-def findDefault : List Layer → Option Nat
+def findDefault : List (Layer P) → Option Nat
   | [] => none
   | l :: r => if l.dir = glyphsDir then some 0 else (findDefault r).map (· + 1)
 
 /-- `layers.remove(default_idx); layers.insert(0, default_layer)` -/
-def defaultFirst (ls : List Layer) : Out (List Layer) :=
+def defaultFirst (ls : List (Layer P)) : Out (List (Layer P)) :=
   match findDefault ls with
   | none => .err .missingDefault
   | some i =>
@@ -475,9 +533,9 @@ def defaultFirst (ls : List Layer) : Out (List Layer) :=
     | none => .err .missingDefault
 
 /-- `Font::load_impl` for a format-3 tree, everything requested -/
-def loadFont (t : Tree) : Out Font :=
+def loadFont (t : (Tree P)) : Out (Font P) :=
   let lib0 := t.lib.getD []
-  let infoR : Out (Info × Dict) := match t.fontinfo with
+  let infoR : Out (Info P × Dict) := match t.fontinfo with
     | none => .ok ({}, lib0)
     | some i => loadInfo i lib0
   match infoR with
